@@ -177,6 +177,8 @@ def h_step(env):
     s = cat.shapes["M"]
     m = mod.M()
     model = {}
+    if not isinstance(getattr(m, "_group_current", None), dict) or not hasattr(betterproto, "PLACEHOLDER"):
+        env.cut("the representation differs from the one this inductive step is written for (histories from the constructor cover the property)")
     # pre-state written directly into the representation (not through the operations under test)
     for g, members in s.groups().items():
         k = env.choose("pre." + g, len(members) + 1)
@@ -190,17 +192,19 @@ def h_step(env):
         model[g] = (f.name, v)
     object.__setattr__(m, "_serialized_on_wire", True)
     m, op = apply_op(env, cat, mod, m, model, "op.", [env.params["op"]])
-    # representation invariant
+    # the observable clause of the property after the operation
+    observe_groups(env, cat, mod, m, model, "after-op")
+    # representation invariant re-established (what makes one step speak for histories of any length).  It is a device of the argument,
+    # not something the property states: where it fails while the observable clause holds, the step is inconclusive, not violated
     for g, members in s.groups().items():
         cur = m._group_current.get(g)
-        env.check("invariant:_group_current-is-a-member-or-None", cur is None or cur in [f.name for f in members])
+        env.proof_device("invariant:_group_current-is-a-member-or-None", cur is None or cur in [f.name for f in members])
         for f in members:
             raw = object.__getattribute__(m, f.name)
             if f.name == cur:
-                env.check("invariant:selected-slot-filled", raw is not betterproto.PLACEHOLDER)
+                env.proof_device("invariant:selected-slot-filled", raw is not betterproto.PLACEHOLDER)
             else:
-                env.check("invariant:other-slots-are-PLACEHOLDER", raw is betterproto.PLACEHOLDER, "%s holds %r while %r is selected" % (f.name, type(raw).__name__, cur))
-    observe_groups(env, cat, mod, m, model, "after-op")
+                env.proof_device("invariant:other-slots-are-PLACEHOLDER", raw is betterproto.PLACEHOLDER)
 
 
 def units(tier):
